@@ -141,7 +141,15 @@ func c07Case(c *Ctx) {
 		recs = c07Panel
 	} else {
 		for k := 0; k < per; k++ {
-			recs = append(recs, c07Recipe(c, k))
+			rec := c07Recipe(c, k)
+			if k%3 == 0 { // field-regrouped variants first: a memo keyed on a lossy rendering would answer for the wrong recipe
+				for _, sib := range siblingsOf(c.R, rec) {
+					if sib.Length >= 1 {
+						recs = append(recs, sib)
+					}
+				}
+			}
+			recs = append(recs, rec)
 		}
 	}
 	for k, rec := range recs {
